@@ -51,15 +51,18 @@ def confirm(d, wt):
     return m
 
 
-def detect(d, extra):
+def detect(d, extra, repo="/repo"):
+    """repo=/repo: the literal procedure of the brief. repo=<worktree>: same checks with VERIF_REPO pointing at a scratch worktree
+    (used while a long run occupies /repo; the checks load both the symbolic source and the real stack from that checkout)."""
     d = os.path.abspath(d)
     m = load_meta(d)
     prop = m.get("property") or os.path.basename(d.rstrip("/")).split("_")[0]
     patch = os.path.join(d, "patch.diff")
-    rc, out = sh("git status --porcelain", cwd="/repo")
+    rc, out = sh("git status --porcelain", cwd=repo)
     if out.strip():
-        print("refusing: /repo has local changes"); sys.exit(2)
-    rca, outa = sh(f"git apply {patch}", cwd="/repo")
+        print(f"refusing: {repo} has local changes"); sys.exit(2)
+    rca, outa = sh(f"git apply {patch}", cwd=repo)
+    envx = dict(os.environ, VERIF_REPO=repo) if repo != "/repo" else None
     res = {}
     try:
         if rca != 0:
@@ -67,16 +70,16 @@ def detect(d, extra):
         else:
             for pid in [prop] + [x for x in extra if x != prop]:
                 t = time.time()
-                rc, out = sh(f"./check {pid} --tier quick --no-evidence", cwd=VERIF, timeout=7200)
+                rc, out = sh(f"./check {pid} --tier quick --no-evidence", cwd=VERIF, timeout=7200, env=envx)
                 viol = [l for l in out.splitlines() if l.startswith("counterexample")][:3]
                 inc = [l for l in out.splitlines() if l.startswith("INCONCLUSIVE")][:2]
                 res[pid] = dict(exit=rc, wall_s=round(time.time() - t, 1), first_counterexamples=[v[:400] for v in viol], inconclusive=[x[:300] for x in inc])
     finally:
-        sh("git checkout -- .", cwd="/repo")
+        sh("git checkout -- .", cwd=repo)
     m["property"] = prop
     hist = m.setdefault("runs", [])
     hist.append(dict(at=time.strftime("%Y-%m-%d %H:%M"), verif_commit=sh("git rev-parse --short HEAD", cwd=VERIF)[1].strip(),
-                     verdicts={k: v.get("exit") for k, v in res.items() if isinstance(v, dict)}))
+                     applied_to=repo, verdicts={k: v.get("exit") for k, v in res.items() if isinstance(v, dict)}))
     m.setdefault("detection", {}).update(res)
     m["detected_by"] = sorted(k for k, v in m["detection"].items() if isinstance(v, dict) and v.get("exit") == 1)
     save_meta(d, m)
@@ -86,5 +89,7 @@ def detect(d, extra):
 if __name__ == "__main__":
     if sys.argv[1] == "confirm":
         print(json.dumps(confirm(sys.argv[2], sys.argv[3]), indent=1)[:1500])
+    elif sys.argv[1] == "detect_wt":
+        print(json.dumps(detect(sys.argv[2], sys.argv[4:], repo=sys.argv[3]), indent=1)[:3000])
     else:
         print(json.dumps(detect(sys.argv[2], sys.argv[3:]), indent=1)[:3000])
